@@ -48,7 +48,16 @@ type Case struct {
 	Procs   int           `json:"procs,omitempty"`    // GOMAXPROCS
 	BaseTpl bool          `json:"base_tpl,omitempty"` // all goroutines use the single base template (Load/New from it)
 	Failing bool          `json:"failing,omitempty"`  // a further goroutine keeps making renders that fail half-way
+	NilData bool          `json:"nil_data,omitempty"` // every call passes no data at all (nil map)
 }
+
+// stuck is set once a concurrent phase did not finish: the blocked goroutines cannot be stopped
+// and may hold engine locks, so the rest of the run is skipped.
+var stuck atomic.Bool
+
+// stuckAfter is the only clock of this check: a phase of at most a few hundred renders of tiny
+// templates that has not finished after this long is reported as "did not return".
+const stuckAfter = 90 * time.Second
 
 // A render that fails after it has produced part of a text run and of an attribute value;
 // whatever it leaves behind in process-wide pools must never surface in another render.
@@ -247,7 +256,11 @@ func soloResults(w *world, c Case, entry string, g int) []result {
 		if c.BaseTpl {
 			root = root.Fill(dataFor(pp, c.N))
 		}
-		out = append(out, callMode(pp, root, pp.NewVue(fsys), entry, dataFor(pp, c.N), suffix, c.BaseTpl))
+		soloData := dataFor(pp, c.N)
+		if c.NilData {
+			soloData = nil
+		}
+		out = append(out, callMode(pp, root, pp.NewVue(fsys), entry, soloData, suffix, c.BaseTpl))
 	}
 	w.solo[key] = out
 	return out
@@ -255,6 +268,9 @@ func soloResults(w *world, c Case, entry string, g int) []result {
 
 func check(c Case) error {
 	if c.N <= 0 || c.Reps <= 0 || len(c.Entries) == 0 {
+		return nil
+	}
+	if stuck.Load() {
 		return nil
 	}
 	if c.Gen != nil && compose.TooLarge(*c.Gen) {
@@ -349,6 +365,9 @@ func check(c Case) error {
 				if !c.Shared {
 					data = dataFor(j.w.p, c.N)
 				}
+				if c.NilData {
+					data = nil
+				}
 				n := atomic.AddInt32(&inflight, 1)
 				for {
 					m := atomic.LoadInt32(&maxInflight)
@@ -421,7 +440,18 @@ func check(c Case) error {
 		}
 	}
 	close(start)
-	wg.Wait()
+	finished := make(chan struct{})
+	go func() { wg.Wait(); close(finished) }()
+	select {
+	case <-finished:
+	case <-time.After(stuckAfter):
+		stuck.Store(true)
+		close(stop)
+		mu.Lock()
+		done := len(observed)
+		mu.Unlock()
+		return fmt.Errorf("the concurrent renders did not return within %v: %d of %d calls finished (deadlock or livelock in the engine)", stuckAfter, done, len(jobs))
+	}
 	close(stop)
 	wwg.Wait()
 
@@ -481,6 +511,9 @@ func classify(c Case) (bool, []string) {
 	if c.Failing {
 		cls = append(cls, "failing-renders-alongside")
 	}
+	if c.NilData {
+		cls = append(cls, "calls-without-data")
+	}
 	if c.Writer != "" {
 		cls = append(cls, "files-changing")
 	}
@@ -521,6 +554,7 @@ func TestProp(t *testing.T) {
 				{Prog: p.Name, N: 16, Reps: reps, Entries: []string{"string", "reader", "file", "load"}, BaseTpl: true, Unique: true, Procs: 16},
 				{Prog: p.Name, N: 8, Reps: reps, Entries: []string{"string", "file", "vue"}, BaseTpl: true, Warm: true, Writer: "page.vuego", Procs: 4},
 				{Prog: p.Name, N: 8, Reps: reps, Entries: allEntries, Failing: true, Unique: true, Procs: 4},
+				{Prog: p.Name, N: 16, Reps: reps, Entries: []string{"vue", "frag", "vue", "load"}, NilData: true, Procs: 16},
 			}
 			if run.Thorough() {
 				configs = append(configs,
@@ -553,6 +587,7 @@ func TestProp(t *testing.T) {
 			Procs:   rapid.SampledFrom([]int{1, 4, 16}).Draw(t, "procs"),
 			BaseTpl: rapid.Bool().Draw(t, "base"),
 			Failing: rapid.IntRange(0, 2).Draw(t, "failing") == 0,
+			NilData: rapid.IntRange(0, 4).Draw(t, "nildata") == 0,
 		}
 		k := rapid.IntRange(1, 4).Draw(t, "ne")
 		for j := 0; j < k; j++ {
